@@ -406,7 +406,7 @@ def eval_reuse(ctx: Ctx, pairs):
     for first, case in pairs:
         ctx.evaluations += 1
         ctx.count('transformer-instance-reused')
-        fresh, again = real_frame(case), real_frame_reused(first, case)
+        fresh, again = real_frame(dict(case, via='object')), real_frame_reused(first, case)
         if 'exc' in fresh or 'exc' in again:
             if ('exc' in fresh) != ('exc' in again):
                 ctx.oracle_fail('reuse', f'preset={case["preset"]!r}: a fresh transformer gives {str(fresh.get("exc", "columns"))[:80]}, one that served {first["cols"]} '
